@@ -1,3 +1,49 @@
+import PicoProofs.EndToEnd
 import PicoProofs.Tie
-import PicoModel.WellTyped
-/- C08: theorems are added as the proof modules land -/
+/-
+C08 — Field presence survives encoding and decoding.
+
+Presence is part of the value tree (`.none` vs `.some`, selected oneof member, `.list` length), so
+the round-trip theorem preserves it wholesale; the lemmas below spell out the zero cases the
+property names: they are instances, each for EVERY field number, kind and schema.
+-/
+namespace Pico.Props
+open Pico Pico.Gen2
+
+/-- whatever the message distinguishes in memory it still distinguishes after Marshal, Unmarshal -/
+theorem C08_presence_survives (S : Schema) (hS : S.ok) (id : Nat) (v : Val)
+    (hwt : wtMsg S true id v = true) (hsz : (Spec.specEnc S id v).length < 2 ^ 64) :
+    ∃ d, unmarshal S id (marshal S id v) (zeroMsg S id) = .ok (d, v) ∧ d.err = none :=
+  unmarshal_marshal S hS id v hwt hsz
+
+/-- … and a reader of the wire (the specification decoder, which the reference implementation is
+compared with) sees the same distinctions -/
+theorem C08_reference_sees_it (S : Schema) (hS : S.ok) (id : Nat) (v : Val)
+    (hwt : wtMsg S true id v = true) (hsz : (Spec.specEnc S id v).length < 2 ^ 64) :
+    Spec.specUnmarshal S id (marshal S id v) (zeroMsg S id) = some v := spec_reads_marshal S hS id v hwt hsz
+
+/-- an optional field / oneof member explicitly set to the zero value is still written: the Always
+writers emit tag and value for EVERY value, zero included -/
+theorem C08_zero_kept_when_present (k : Scalar) (f : Nat) (v : Val) (h : scalarOk k v = true) :
+    Enc.writeSingle true k (f : Int) v.toSVal = Spec.field1 f k v.toSVal := by
+  rw [writeSingle_eq true k f v h]; rfl
+
+theorem C08_zero_kept_nonempty (k : Scalar) (f : Nat) (v : Val) (h : scalarOk k v = true) :
+    Enc.writeSingle true k (f : Int) v.toSVal ≠ [] := by
+  rw [C08_zero_kept_when_present k f v h]
+  intro hnil
+  have hne := Wire.varint_ne_nil (Wire.encodeTag f k.wire)
+  simp only [Spec.field1, Wire.tag, List.append_eq_nil_iff] at hnil
+  exact hne hnil.1
+
+/-- an empty-but-present sub-message (pointer set, no content) is written as a zero-length field,
+an absent one as nothing -/
+theorem C08_empty_submessage_kept (f : Nat) : Enc.message (f : Int) [] true = Spec.lenField f [] ∧ Enc.message (f : Int) [] false = [] :=
+  ⟨message_eq f [], rfl⟩
+
+/-- repeated message elements are never dropped or merged: each element, empty or not, is one
+length-delimited record -/
+theorem C08_repeated_message_elements (f : Nat) (p : Bytes) : Enc.alwaysMessage (f : Int) p = Spec.lenField f p :=
+  alwaysMessage_eq f p
+
+end Pico.Props
